@@ -190,6 +190,29 @@ pub fn adjust(cfg: &mut SwarmCfg, tier: &str, r: &mut Prng) {
             setw(cfg, "crash", 0);
             setw(cfg, "send_app", 4);
         }
+        "C14" => {
+            use crate::crypto::ProviderKind::*;
+            cfg.oracles = sv(&["agreement", "cross-check", "tree-valid"]);
+            cfg.faults = sv(&["N-FLIP", "N-TRUNC", "N-REORD", "N-RACE", "N-DUP"]);
+            cfg.knobs.push(("observe-every".into(), 8));
+            cfg.knobs.push(("psk".into(), 1));
+            // every party draws its provider; the cross-check seam evaluates every deterministic primitive on a
+            // second provider as well
+            let kinds = [RustCrypto, OpenSsl, AwsLc, Det];
+            let n = cfg.n_parties.max(2);
+            cfg.providers = (0..n).map(|_| *r.pick(&kinds)).collect();
+            if r.chance(2, 3) {
+                cfg.cross = Some(*r.pick(&[RustCrypto, OpenSsl, AwsLc]));
+            }
+            // suites every shipped provider supports
+            cfg.suite = *r.pick(&[1u16, 1, 2, 3, 7]);
+            cfg.n_parties = cfg.n_parties.min(6);
+            cfg.steps = cfg.steps.min(50);
+            setw(cfg, "corrupt", 10);
+            setw(cfg, "send_app", 12);
+            setw(cfg, "commit", 14);
+            setw(cfg, "crash", 0);
+        }
         "C06" => {
             cfg.oracles = sv(&["agreement", "restore"]);
             cfg.faults = sv(&["P-CRASH", "N-REORD", "N-DUP", "N-RACE", "N-STALE", "crash-with-pending"]);
